@@ -39,7 +39,7 @@ def main():
             if src.count(m["old"]) != 1:
                 print(f"SKIP {m['name']}: pattern occurs {src.count(m['old'])} times"); bad += 1; continue
             open(path, "w").write(src.replace(m["old"], m["new"]))
-            env = dict(os.environ, VERIF_REPO=wt, VERIF_OUT=wt + "/.verif-out")
+            env = dict(os.environ, VERIF_REPO=wt, VERIF_OUT=wt + "/.verif-out", VERIF_NORETRY="1")
             r = sh(f"{ROOT}/bin/check {m['prop']} quick", env=env)
             open(path, "w").write(src)
             viol = [l for l in r.stdout.splitlines() if l.startswith("VIOLATION")]
